@@ -11,7 +11,7 @@ use std::io::{Cursor, Write};
 pub fn class_char(c: &str) -> char {
     match c {
         "a" => 'a', "amp" => '&', "lt" => '<', "gt" => '>', "quot" => '"', "apos" => '\'',
-        "sp" => ' ', "tab" => '\t', "nl" => '\n', "cr" => '\r', "cjk" => '漢', "astral" => '😀',
+        "sp" => ' ', "tab" => '\t', "nl" => '\n', "cr" => '\r', "cjk" => '漢', "astral" => '😀', "bom" => '\u{feff}',
         o => panic!("harness: class {}", o),
     }
 }
@@ -174,7 +174,7 @@ pub fn replay(args: &Args) -> i32 {
 fn char_class(c: char) -> &'static str {
     match c {
         'a' => "a", '&' => "amp", '<' => "lt", '>' => "gt", '"' => "quot", '\'' => "apos", ' ' => "sp",
-        '\t' => "tab", '\n' => "nl", '\r' => "cr", '漢' => "cjk", '😀' => "astral", _ => "?",
+        '\t' => "tab", '\n' => "nl", '\r' => "cr", '漢' => "cjk", '😀' => "astral", '\u{feff}' => "bom", _ => "?",
     }
 }
 
@@ -184,7 +184,7 @@ pub fn drive(args: &Args) -> i32 {
     let maxlen = args.num("maxlen", 200) as usize;
     let mut rng = StdRng::seed_from_u64(args.seed() ^ 0xC19);
     let mut out = std::io::BufWriter::new(std::fs::File::create(args.req("out")).unwrap());
-    let classes = ["a", "amp", "lt", "gt", "quot", "apos", "sp", "tab", "nl", "cr", "cjk", "astral"];
+    let classes = ["a", "amp", "lt", "gt", "quot", "apos", "sp", "tab", "nl", "cr", "cjk", "astral", "bom"];
     let forms = |c: &str| -> Vec<&'static str> {
         match c {
             "a" => vec!["lit", "dec", "hex", "cdata"], "amp" => vec!["named", "dec", "hex", "cdata"],
